@@ -1497,6 +1497,160 @@ fn part_d(ctx: &Ctx, st: &St) {
 
 // ---------------------------------------------------------------------------------
 
+// ---------------------------------------------------------------------------------
+// L. publication of the advertisement under lock contention
+// ---------------------------------------------------------------------------------
+
+/// A server task holds the READ side of the shared `server_info` while the used sources
+/// change. Schedule: reader thread locks and signals; updater thread calls
+/// `update_used_sources`; the reader releases once the call has finished or has been seen
+/// blocked for 50 ms. The verdict is taken after both finished, so it does not depend on
+/// timing: whatever the interleaving, a server must then read the new advertisement.
+#[derive(Clone, Debug)]
+struct LCase {
+    ver: u8,     // 4 (no Bloom filter) or 5 (Bloom filter transferred)
+    stratum: u8, // stratum of the NTP source
+    ext: u8,     // 0 only the NTP source, 1 NTP then PPS, 2 PPS then NTP, 3 NTP then SOCK
+}
+
+impl LCase {
+    fn trace(&self) -> String {
+        format!("L;{};{};{}", self.ver, self.stratum, self.ext)
+    }
+}
+
+/// Returns (snapshot returned by the call, was the call seen blocked) or None on dead-man.
+fn contended_update(mgr: &Arc<NtpManager>, used: Vec<(ClockId, SourceType)>) -> Option<(NtpSnapshot, bool)> {
+    use std::sync::atomic::AtomicBool;
+    use std::sync::mpsc;
+    use std::time::{Duration, Instant};
+    let si = crate::system::verif_probe::gk::server_info(mgr);
+    let done = Arc::new(AtomicBool::new(false));
+    let (tx_ready, rx_ready) = mpsc::channel::<()>();
+    let (tx_blocked, rx_blocked) = mpsc::channel::<bool>();
+    let (tx_res, rx_res) = mpsc::channel::<NtpSnapshot>();
+    let done_r = done.clone();
+    std::thread::spawn(move || {
+        let guard = si.read().unwrap();
+        let _ = tx_ready.send(());
+        let t0 = Instant::now();
+        while !done_r.load(Ordering::SeqCst) && t0.elapsed() < Duration::from_millis(50) {
+            std::thread::sleep(Duration::from_millis(1));
+        }
+        let blocked = !done_r.load(Ordering::SeqCst);
+        drop(guard);
+        let _ = tx_blocked.send(blocked);
+    });
+    rx_ready.recv_timeout(Duration::from_secs(10)).ok()?;
+    let mgr_u = mgr.clone();
+    std::thread::spawn(move || {
+        let snap = mgr_u.update_used_sources(used.into_iter());
+        done.store(true, Ordering::SeqCst);
+        let _ = tx_res.send(snap);
+    });
+    let snap = rx_res.recv_timeout(Duration::from_secs(20)).ok()?;
+    let blocked = rx_blocked.recv_timeout(Duration::from_secs(20)).ok()?;
+    Some((snap, blocked))
+}
+
+fn run_l(ctx: &Ctx, st: &St, c: &LCase) -> String {
+    let trace = c.trace();
+    let ips = ip_list(0);
+    let (mgr, mine) = new_manager(16, &ips);
+    let mgr = Arc::new(mgr);
+    let addr = IpAddr::V4(OTHER4);
+    let id = ClockId::new();
+    let bloom = if c.ver == 5 { filter_of(&[OTHER_IDX]) } else { BloomFilter::new() };
+    // the used NTP source reports (real source polled against a real server)
+    let link = super::block_on_paused(async {
+        let pv = if c.ver == 5 { ProtocolVersion::V5 } else { ProtocolVersion::V4 };
+        let (src, _) = mgr.new_source(SocketAddr::new(addr, 123), SourceConfig::default(), pv, RecCtl::default(), None, id);
+        let mut link = Link { src, id, client_ip: IpAddr::V4(OWN4), server_ip: addr, model: Model::new() };
+        let mut srv = ScriptedServer::new();
+        srv.advertise(c.stratum, id_kind(3), bloom);
+        for _ in 0..(if c.ver == 5 { 33 } else { 2 }) {
+            exchange(st, &mut link, &mut srv.server, (c.stratum, id_kind(3)), true);
+        }
+        link
+    });
+    let ext_id = ClockId::new();
+    let used: Vec<(ClockId, SourceType)> = match c.ext {
+        0 => vec![(id, SourceType::Ntp)],
+        1 => vec![(id, SourceType::Ntp), (ext_id, SourceType::Pps)],
+        2 => vec![(ext_id, SourceType::Pps), (id, SourceType::Ntp)],
+        _ => vec![(id, SourceType::Ntp), (ext_id, SourceType::Sock)],
+    };
+    let primary: (u8, [u8; 4]) = if c.ext == 2 { (0, *b"PPS\0") } else { (c.stratum, ref_id_of(addr)) };
+    let mut want_bloom = mine;
+    if c.ver == 5 {
+        want_bloom.add(&bloom);
+    }
+    let si = crate::system::verif_probe::gk::server_info(&mgr);
+    let mut obs = String::new();
+    // phase 1: first publication (before: default stratum 16 / XNON / empty filter); phase 2: sources dropped again
+    for (phase, set, want) in [(1, used.clone(), Some(primary)), (2, Vec::new(), None)] {
+        st.evals.fetch_add(1, Ordering::Relaxed);
+        st.snapshots.fetch_add(1, Ordering::Relaxed);
+        let Some((returned, blocked)) = contended_update(&mgr, set) else {
+            ctx.cap_hit(&format!("{trace}: dead-man timer fired in the lock schedule (phase {phase}); no verdict for this case"));
+            return obs;
+        };
+        let served = si.read().unwrap().ntp_snapshot;
+        let observed = mgr.observe();
+        obs.push_str(&format!("p{phase}:{}:{:02x?}/{} ", served.stratum, served.reference_id.to_bytes(), if blocked { "blocked" } else { "free" }));
+        for (who, snap) in [("returned by update_used_sources", &returned), ("read by a server from the shared server_info", &served), ("returned by observe()", &observed)] {
+            let (ws, wid, wb) = match want {
+                Some((ps_, pid)) => (ps_ + 1, Some(pid), want_bloom),
+                None => (16, None, mine),
+            };
+            let ok = snap.stratum == ws && wid.map_or(true, |i| snap.reference_id.to_bytes() == i) && snap.bloom_filter == wb;
+            if !ok {
+                ctx.violation(
+                    "C33:advertisement-not-published",
+                    format!(
+                        "used sources changed while a server held the read lock of server_info (phase {phase}, update call {}): the snapshot {who} is stratum {} refid {:02x?} ({} filter bits), expected stratum {ws} refid {:02x?} ({} filter bits)",
+                        if blocked { "blocked until release" } else { "did not wait" },
+                        snap.stratum,
+                        snap.reference_id.to_bytes(),
+                        snap.bloom_filter.count_ones(),
+                        wid,
+                        wb.count_ones()
+                    ),
+                    &trace,
+                );
+            }
+        }
+    }
+    drop(link);
+    obs
+}
+
+fn l_cases() -> Vec<LCase> {
+    let mut v = Vec::new();
+    for stratum in [1u8, 2, 15] {
+        v.push(LCase { ver: 4, stratum, ext: 0 });
+    }
+    for ext in 1..=3u8 {
+        v.push(LCase { ver: 4, stratum: 2, ext });
+    }
+    v.push(LCase { ver: 5, stratum: 2, ext: 0 });
+    v.push(LCase { ver: 5, stratum: 1, ext: 3 });
+    v
+}
+
+fn part_l(ctx: &Ctx, st: &St) {
+    let cases = l_cases();
+    ctx.set("l_cases", cases.len() as u64);
+    common::par_for(cases.len() as u64, 1, |i| {
+        let c = &cases[i as usize];
+        let o = run_l(ctx, st, c);
+        ctx.distinct(common::hash_of(&("L", c.trace())));
+        if i % 3 == 0 {
+            ctx.sample(format!("{} -> {}", c.trace(), o));
+        }
+    });
+}
+
 fn preliminary(ctx: &Ctx) {
     // the crate's reference-id derivation against the RFC 5905 definition
     for ip in [
@@ -1561,6 +1715,10 @@ fn replay(ctx: &Ctx, trace: &str) -> String {
             };
             super::block_on_paused(async { run_d(ctx, &st, &c) })
         }
+        "L" => {
+            let c = LCase { ver: num(1) as u8, stratum: num(2) as u8, ext: num(3) as u8 };
+            run_l(ctx, &st, &c)
+        }
         "R" => {
             preliminary(ctx);
             "refid".to_string()
@@ -1584,7 +1742,7 @@ fn check() {
          B: from_used_sources over every sequence of <=3 sources from 39 symbols x local stratum {1,2,16}. \
          E: real NtpManager + NtpSource polled against a real Server: version {v4, v5, v4->v5 upgrade} x local stratum x polled address {own v4, own v6, foreign} x address list x first phase {none, good, loop} x \
          advertised stratum 0..17 x reference id (6) / Bloom (4) x answer patterns (3 quick / all 2^10 + 3 thorough), checked after every poll. \
-         D: two full daemons (B synchronises to A, A polls B) x version x upstream stratum {PPS,1,2,5,13} x address family x address list. \
+         L: 8 used-source sets (NTP stratum 1/2/15, NTP + PPS/SOCK in both orders, with/without Bloom filter) published by update_used_sources while a reader thread holds server_info (release after the call finished or was blocked 50 ms), first publication and withdrawal. D: two full daemons (B synchronises to A, A polls B) x version x upstream stratum {PPS,1,2,5,13} x address family x address list. \
          Distinct & non-trivial = a distinct E/D scenario or B word; A cases are counted per deciding condition.",
     );
     ctx.assume("reference ids follow RFC 5905 (IPv4 address / first 4 octets of MD5 of the IPv6 address; digests precomputed with python hashlib)");
@@ -1608,6 +1766,7 @@ fn check() {
         ctx.sample(format!("{} -> {}", c.trace(), run_a(&ctx, &st, c, &blooms)));
     }
     let t0 = ctx.elapsed_s();
+    part_l(&ctx, &st);
     part_d(&ctx, &st);
     let t_d = ctx.elapsed_s();
     part_a(&ctx, &st);
